@@ -46,8 +46,8 @@ CobaContext.search_paths = []
 
 # ------------------------------------------------------------------ alphabets (every value is built fresh from its name)
 
-ACT_NAMES = ['s', 'one', 'i123', 'i01', 'i012', 'f', 'f01', 'oh', 'l', 'sp', 'oh3', 'sp2', 'd1']       # simplest first
-ACT_KIND = {'i012': 'ints 0..2', 'f01': 'floats 0.0/1.0', 's': 'strings', 'one': 'single int action', 'i123': 'ints 1..3', 'i01': 'ints 0/1', 'f': 'probability-like floats',
+ACT_NAMES = ['s', 'one', 'i123', 'i01', 'i012', 'i05', 'i15', 'i50', 'i51', 'f', 'f01', 'oh', 'l', 'sp', 'oh3', 'sp2', 'd1']       # simplest first
+ACT_KIND = {'i05': 'ints [0,5]', 'i15': 'ints [1,5]', 'i50': 'ints [5,0]', 'i51': 'ints [5,1]', 'i012': 'ints 0..2', 'f01': 'floats 0.0/1.0', 's': 'strings', 'one': 'single int action', 'i123': 'ints 1..3', 'i01': 'ints 0/1', 'f': 'probability-like floats',
             'oh': 'one-hot tuples (2)', 'l': 'lists', 'sp': 'sparse dicts (1 feature)', 'oh3': 'one-hot tuples (3)',
             'sp2': 'sparse dicts (2 features)', 'd1': 'dense tuples (1 feature)'}
 
@@ -58,6 +58,7 @@ def mk_acts(name):
     if name == 'i123': return [1, 2, 3]
     if name == 'i01': return [0, 1]
     if name == 'i012': return [0, 1, 2]
+    if name in ('i05', 'i15', 'i50', 'i51'): return [int(name[1]), int(name[2])]      # exactly one of 0/1 next to another int
     if name == 'f01': return [float('0'), float('1')]
     if name == 'f': return [float('0.25'), float('0.75')]
     if name == 'oh': return [tuple([1, 0]), tuple([0, 1])]
@@ -145,6 +146,7 @@ def call_choices(fmt, call, full):
     return [list(t) for t in itertools.product(rc, repeat=n)]
 
 
+ONE_OF_01 = ('i05', 'i15', 'i50', 'i51')
 HIST3_ACTS = ['s', 'f', 'i01', 'i012', 'i123', 'f01']      # with and without 0/1 (ints and floats)
 EVAL_ACTS = ['s', 'i123', 'i01', 'f', 'one']        # values that Finalize leaves as they are
 
@@ -275,7 +277,11 @@ def two_way(pmf, acts):
     only quantifies over learners that use a dict hint there."""
     for a in acts:
         if isinstance(a, (list, tuple)) and list(a) == list(pmf): return True
-        if len(pmf) == 2 and not isinstance(a, (list, tuple, dict, str)) and pmf[0] == a: return True
+        if len(pmf) == 2 and not isinstance(a, (list, tuple, dict, str)) and pmf[0] == a:
+            # SafeLearner offers the int actions 0/1 as float copies exactly so that a PMF with int entries ([0,1], [1,0]) cannot be
+            # taken for (offered action, prob): only an entry of the type of the OFFERED object can be read two ways
+            offered = float if isinstance(a, float) or a in (0, 1) else type(a)
+            if type(pmf[0]) is offered: return True
     return False
 
 
@@ -814,7 +820,7 @@ class C15(Check):
     ENGINE = 'ENUM'
     RULE = ('cases = (format in {action, (action,prob), PMF, {action:}, {action_prob:}, {pmf:}}) x (kwargs: none, {}, scalar payload, '
             'list+string payload, and for batches 2- and 3-key payloads whose key insertion order differs between the rows) x (layout: un-batched, row-major batch, column-major batch, learner that refuses batches) x batch size '
-            '1..2 (thorough 1..3, incl. size == number of actions) x 13 action sets (strings, one int, ints, 0/1, 0..2, floats 0.0/1.0, probability-like '
+            '1..2 (thorough 1..3, incl. size == number of actions) x 17 action sets (strings, one int, ints, 0/1, 0..2, [0,5] [1,5] [5,0] [5,1], floats 0.0/1.0, probability-like '
             'floats, one-hot tuples of 2 and 3, lists, sparse dicts with 1 and 2 features, 1-feature dense) x context kind {None, '
             'scalar, list; for batches also context=None for the whole batch} x SafeLearner seed (PMF formats) x container types; plus two-call histories where the second call offers '
             'another action set (and another batch size), and three-call histories XXY / XYX / XYY over every ordered pair of 6 action sets with and without 0/1 (joint rotations of the answers); SafeLearner / evaluator seeds include 0 (and 0.0), contexts, kwargs values and stated probabilities include 0; plus the same answers for 3 interactions through the real SequentialCB (5 action sets, '
@@ -824,7 +830,7 @@ class C15(Check):
             'execution is non-trivial when it is inside the property\'s quantifier (not an un-hinted PMF that could also be read as an '
             'action or (action,prob) pair), offers >= 2 actions and its whole predict+learn round trip was compared')
     ASSUMPTIONS = [
-        'the learner is a pure function of the (context, actions) it is offered and always returns the OFFERED action objects; un-hinted PMF answers whose value could also be read as an offered action or as an (action, prob) pair (e.g. [1,0] over actions [0,1] or over one-hot actions) are executed but nothing is demanded of them',
+        'the learner is a pure function of the (context, actions) it is offered and always returns the OFFERED action objects; un-hinted PMF answers whose value could also be read as an offered action (e.g. [1,0] over one-hot actions) or as an (OFFERED action object, prob) pair (an entry of the offered object\'s type: 0.25 over actions [0.25,0.75]) are executed but nothing is demanded of them; a PMF with int entries over int actions 0/1 ([0,1] over [0,5]) IS demanded, because SafeLearner offers those actions as float copies to keep exactly this apart',
         'actions are compared with == (SafeLearner may hand out float copies of 0/1); the numeric type of the action is not constrained',
         'a bare action answer must be reported with probability None (the learner stated none)',
         'which action a non-degenerate PMF yields is not constrained beyond: offered, non-zero mass, reported with exactly its mass, identical for equal seeds and for batch vs per-row invocation',
@@ -840,7 +846,7 @@ class C15(Check):
     TECHNIQUE = ('bounded-exhaustive enumeration of prediction format x kwargs x batch layout x batch size x action type x per-row answers on the '
                  'real SafeLearner (predict + learn) against a reference reading of the scripted learner\'s answer')
     LEVEL_TEXT = ('Every documented prediction format, with and without kwargs, un-batched / row-major / column-major / per-row fallback, batch '
-                  'sizes up to 3 (including the square case), over 13 action-set types and every assignment of named actions / probabilities / '
+                  'sizes up to 3 (including the square case), over 17 action-set types and every assignment of named actions / probabilities / '
                   'PMFs to the rows, plus two-call histories with a changed action set and three-call histories that return to an earlier action set, is run on the real SafeLearner and compared with the '
                   'reference reading; exhaustive below the bound, so the smallest mis-read layout is found with certainty.')
     LEVEL_NOTE = 'small-scope hypothesis: <=3 rows, <=3 actions, <=3 calls, a fixed set of probabilities / PMFs / kwargs payloads; un-hinted value-ambiguous PMFs are excluded as the property does'
@@ -892,7 +898,7 @@ class C15(Check):
             n2s = [1] if mode == 'not' else [n, 1 if n > 1 else 2] if quick else sizes
             for acts in ACT_NAMES:
                 for acts2 in ACT_NAMES:
-                    if acts2 == acts: continue
+                    if acts2 == acts or acts2 in ONE_OF_01 or (acts in ONE_OF_01 and acts2 != 's'): continue      # [0,5].. only as the first call, followed by strings
                     for fmt in FMTS:
                         for kw in ((0, 2) if quick else range(4)):
                             for ctx in (('scalar',) if quick else ('none', 'scalar')):
